@@ -14,6 +14,8 @@
 #include <fcppt/parse/char.hpp>
 #include <fcppt/parse/char_set.hpp>
 #include <fcppt/parse/construct.hpp>
+#include <fcppt/parse/float.hpp>
+#include <fcppt/parse/parse_string.hpp>
 #include <fcppt/parse/convert_const.hpp>
 #include <fcppt/parse/grammar.hpp>
 #include <fcppt/parse/grammar_parse_string.hpp>
@@ -24,6 +26,10 @@
 #include <fcppt/parse/skipper/space.hpp>
 #include <fcppt/variant/match.hpp>
 #include <fcppt/variant/object_impl.hpp>
+
+#include <cmath>
+#include <limits>
+#include <sstream>
 
 namespace
 {
@@ -252,6 +258,193 @@ void typed_results()
               return o + "]";
             });
 }
+
+// ---------------------------------------------------------------- numeric leaves on long inputs
+// The enumerated families use strings of length <= 5; the numeric parsers have their interesting
+// inputs at the limits of the result type.  Reference for the *conversion* of the matched digits is
+// the classic-locale stream extraction into exactly the parser's result type (trusted here, checked
+// by C15/C01); the reference for *what is matched* is the documented grammar.
+template <class T> std::optional<T> stream_extract(std::string const &text)
+{
+  std::istringstream is(text);
+  is.imbue(std::locale::classic());
+  T v{};
+  is >> v;
+  if (is.fail() || is.peek() != std::istringstream::traits_type::eof())
+    return std::nullopt;
+  return v;
+}
+
+template <class T> bool same_float(T a, T b) { return (a == b && std::signbit(a) == std::signbit(b)) || (std::isnan(a) && std::isnan(b)); }
+
+// grammar of float_: lexeme( -'-' >> +digit >> '.' >> +digit ); the whole input must be consumed
+static bool match_float(std::string const &in, bool &neg, std::string &digits)
+{
+  std::size_t i = 0;
+  neg = false;
+  if (i < in.size() && in[i] == '-')
+  {
+    neg = true;
+    ++i;
+  }
+  std::size_t const a = i;
+  while (i < in.size() && in[i] >= '0' && in[i] <= '9')
+    ++i;
+  if (i == a || i >= in.size() || in[i] != '.')
+    return false;
+  ++i;
+  std::size_t const b = i;
+  while (i < in.size() && in[i] >= '0' && in[i] <= '9')
+    ++i;
+  if (i == b || i != in.size())
+    return false;
+  digits = in.substr(a);
+  return true;
+}
+
+template <class T> void float_type(char const *tname, std::vector<std::string> const &inputs)
+{
+  static std::string tag;
+  tag = std::string("float_<") + tname + ">";
+  p::float_<T> const parser{};
+  for (std::string const &in : inputs)
+  {
+    if (!vrt::begin_text(tag.c_str(), tag + " input \"" + in + "\""))
+      continue;
+    bool neg = false;
+    std::string digits;
+    std::optional<T> want;
+    if (match_float(in, neg, digits))
+    {
+      want = stream_extract<T>(digits);
+      if (want && neg)
+        want = -*want;
+    }
+    vrt::nontrivial(want.has_value());
+    vrt::maybe_sample();
+    auto res = p::parse_string(parser, std::string(in));
+    std::optional<T> const got = fcppt::either::match(
+        res, [](p::error<char> const &) { return std::optional<T>(); }, [](T v) { return std::optional<T>(v); });
+    if (got.has_value() != want.has_value())
+      vrt::fail("static:outcome:" + tag, got ? "parser succeeds, reference fails" : "parser fails, reference succeeds");
+    else if (got && !same_float(*got, *want))
+      vrt::fail("static:value:" + tag, vrt::fmt("value %.25Lg, reference %.25Lg", static_cast<long double>(*got), static_cast<long double>(*want)));
+  }
+}
+
+void float_leaves()
+{
+  std::vector<std::string> inputs = all_strings("105.-", vrt::thorough() ? 6 : 5);
+  // values that separate float / double / long double and sit at the limits of each type
+  for (char const *s : {"0.1", "0.3", "1.1", "123456789.123456789", "16777217.0", "9007199254740993.0", "18446744073709551617.0",
+                        "1.0000000596046447753906250000001", "1.00000005960464477539062500000000", "0.000000000000000000000000000000000000000000001",
+                        "340282346638528859811704183484516925440.0", "340282356779733661637539395458142568448.0", "340282366920938463463374607431768211456.0",
+                        "-340282366920938463463374607431768211456.0", "1.7976931348623157", "0.30000000000000004", "4.9406564584124654",
+                        "3.4028234663852886", "-0.0", "00.50", "-000.125"})
+    inputs.push_back(s);
+  {
+    std::string big = "1";
+    for (int i = 0; i < 310; ++i)
+      big += "0";
+    inputs.push_back(big + ".0");   // above DBL_MAX
+    inputs.push_back("-" + big + ".5");
+    inputs.push_back("0." + big.substr(1) + "1"); // far below DBL_MIN
+  }
+  float_type<float>("float", inputs);
+  float_type<double>("double", inputs);
+  float_type<long double>("long double", inputs);
+}
+
+static std::vector<std::string> integer_boundary_strings()
+{
+  std::vector<std::string> v;
+  unsigned __int128 const one = 1;
+  for (int bits : {7, 8, 15, 16, 31, 32, 63, 64})
+    for (int d = -2; d <= 2; ++d)
+    {
+      unsigned __int128 x = (one << bits) + static_cast<unsigned __int128>(d + 2) - 2;
+      std::string sx;
+      do
+      {
+        sx.insert(sx.begin(), static_cast<char>('0' + static_cast<int>(x % 10)));
+        x /= 10;
+      } while (x != 0);
+      v.push_back(sx);
+      v.push_back("-" + sx);
+      v.push_back("00" + sx);
+      v.push_back(sx + "0");
+    }
+  for (char const *s : {"0", "-0", "1", "-1", "007", "-007", "99999999999999999999999999999999999999", "-", "--1", "+1", "1-"})
+    v.push_back(s);
+  return v;
+}
+
+template <class T> void int_type(char const *tname)
+{
+  static std::string tag;
+  tag = std::string("int_<") + tname + ">";
+  p::int_<T> const parser{};
+  for (std::string const &in : integer_boundary_strings())
+  {
+    if (!vrt::begin_text(tag.c_str(), tag + " input \"" + in + "\""))
+      continue;
+    // grammar: lexeme( -'-' >> +digit ), the magnitude is converted to T, then negated
+    std::size_t i = (!in.empty() && in[0] == '-') ? 1 : 0;
+    bool all = i < in.size();
+    for (std::size_t k = i; k < in.size(); ++k)
+      all = all && in[k] >= '0' && in[k] <= '9';
+    std::optional<T> want;
+    if (all)
+    {
+      want = stream_extract<T>(in.substr(i));
+      if (want && i == 1)
+        want = static_cast<T>(-*want);
+    }
+    vrt::nontrivial(want.has_value());
+    vrt::maybe_sample();
+    auto res = p::parse_string(parser, std::string(in));
+    std::optional<T> const got = fcppt::either::match(
+        res, [](p::error<char> const &) { return std::optional<T>(); }, [](T v) { return std::optional<T>(v); });
+    if (got.has_value() != want.has_value())
+      vrt::fail("static:outcome:" + tag, got ? "parser succeeds, reference fails" : "parser fails, reference succeeds");
+    else if (got && *got != *want)
+      vrt::fail("static:value:" + tag, "value " + std::to_string(*got) + ", reference " + std::to_string(*want));
+  }
+}
+
+template <class T> void uint_type(char const *tname)
+{
+  static std::string tag;
+  tag = std::string("uint<") + tname + ">";
+  p::uint<T> const parser{};
+  for (std::string const &in : integer_boundary_strings())
+  {
+    if (!vrt::begin_text(tag.c_str(), tag + " input \"" + in + "\""))
+      continue;
+    bool all = !in.empty();
+    for (char ch : in)
+      all = all && ch >= '0' && ch <= '9';
+    std::optional<T> const want = all ? stream_extract<T>(in) : std::nullopt;
+    vrt::nontrivial(want.has_value());
+    auto res = p::parse_string(parser, std::string(in));
+    std::optional<T> const got = fcppt::either::match(
+        res, [](p::error<char> const &) { return std::optional<T>(); }, [](T v) { return std::optional<T>(v); });
+    if (got.has_value() != want.has_value())
+      vrt::fail("static:outcome:" + tag, got ? "parser succeeds, reference fails" : "parser fails, reference succeeds");
+    else if (got && *got != *want)
+      vrt::fail("static:value:" + tag, "value " + std::to_string(*got) + ", reference " + std::to_string(*want));
+  }
+}
+
+void integer_boundaries()
+{
+  int_type<int>("int");
+  int_type<long>("long");
+  int_type<long long>("long long");
+  uint_type<unsigned short>("unsigned short");
+  uint_type<unsigned>("unsigned");
+  uint_type<unsigned long>("unsigned long");
+}
 }
 
 namespace c02
@@ -260,5 +453,7 @@ void register_static()
 {
   vrt::shard("static/typed_results", [] { typed_results(); }, 120);
   vrt::shard("static/recursive_grammar", [] { recursive_grammars(); }, 120);
+  vrt::shard("static/float", [] { float_leaves(); }, 120);
+  vrt::shard("static/integer_boundaries", [] { integer_boundaries(); }, 120);
 }
 }
